@@ -500,7 +500,104 @@ impl World {
     }
 
     /// Execute one resolved step and evaluate every oracle clause on the resulting state.
+    /// Fault F5: restart from the only durable form a document has — its serialisation.  Every handle
+    /// into the document is lost, the document is re-parsed, the model is rebuilt from the recovered
+    /// document, and the history continues on it.
+    fn restart(&mut self, doc: usize) -> StepReport {
+        let mut rep = StepReport::default();
+        if doc >= self.real.docs.len() || !self.model.has_document_element(doc) {
+            rep.outcome = "skipped".into();
+            return rep;
+        }
+        let expanded = self.real.docs[doc].expanded;
+        let ser = match self.real.serialize(doc) {
+            Ok(s) => s,
+            Err(_) => {
+                rep.outcome = "skipped".into();
+                return rep;
+            }
+        };
+        let live_canon = canon_doc(&self.real.docs[doc].dom);
+        rep.executed = true;
+        rep.outcome = "ok".into();
+        let new = match guarded(|| parse_doc(&ser, expanded)) {
+            Ok(Ok(d)) => d,
+            Ok(Err(e)) => {
+                rep.fails.push(Fail::new("C15", "reparse-rejected", format!("restart: the parser rejects the serialisation: {} (text {:?})", e, ser)));
+                return rep;
+            }
+            Err(p) => {
+                rep.fails.push(Fail::new("C15", "reparse-panic", format!("restart: re-parsing panicked: {}", p)));
+                return rep;
+            }
+        };
+        if let (Ok(a), Ok(b)) = (live_canon, canon_doc(&new)) {
+            if a != b {
+                rep.fails.push(Fail::new("C15", "content-differs", format!("restart: DOM reported {} but the recovered document is {}", a, b)));
+                return rep;
+            }
+        }
+        // the crash: every handle into this document is gone
+        for i in 0..self.real.slots.len() {
+            let gone = match &self.real.slots[i] {
+                Some(RSlot::Node { doc: d, .. }) | Some(RSlot::Vec { doc: d, .. }) | Some(RSlot::List { doc: d, .. }) | Some(RSlot::Map { doc: d, .. }) => *d == doc,
+                _ => false,
+            };
+            if gone {
+                self.real.slots[i] = None;
+                self.model.clear_slot(i);
+            }
+        }
+        self.real.docs[doc].dom = new;
+        // rebuild the model of this document from the recovered one
+        for n in self.model.nodes.iter_mut() {
+            if n.doc == doc {
+                n.dead = true;
+            }
+        }
+        let keys: Vec<Key> = self.model.by_key.keys().cloned().filter(|k| k.doc == doc).collect();
+        for k in keys {
+            self.model.by_key.remove(&k);
+        }
+        let (obs, tfails) = self.real.observe(self.cfg.limit);
+        rep.fails.extend(tfails);
+        let root = self.model.add(Kind::Document, "#document", "", doc);
+        let id = self.real.docs[doc].dom.as_node().id();
+        self.model.bind(root, id);
+        self.model.docs[doc].root = root;
+        let mut work = vec![root];
+        let mut done = std::collections::BTreeSet::new();
+        while let Some(m) = work.pop() {
+            if !done.insert(m) {
+                continue;
+            }
+            self.model.adopt(m, &obs);
+            for c in self.model.nodes[m].children.clone() {
+                work.push(c);
+            }
+            for a in self.model.nodes[m].attrs.clone() {
+                work.push(a);
+            }
+        }
+        self.model.gen += 1;
+        rep.fails.extend(oracle::check_tree(&obs));
+        if rep.fails.is_empty() {
+            rep.fails.extend(oracle::check_order(&obs));
+        }
+        if let Some(d) = oracle::compare(&obs, &self.model.expect_all()) {
+            rep.fails.push(Fail::new("C15", "restart-model", format!("after restart the model rebuilt from the recovered document disagrees with it: {}", d)));
+        }
+        self.last = obs;
+        self.last_ser = (0..self.real.docs.len()).map(|i| self.real.serialize(i).ok()).collect();
+        rep.probes.push("F5_restart_from_serialisation");
+        rep.digest = self.digest();
+        rep
+    }
+
     pub fn exec_step(&mut self, step: &Step) -> StepReport {
+        if let Op::Restart { doc } = &step.op {
+            return self.restart(*doc);
+        }
         let mut rep = StepReport::default();
         let plan = self.model.plan(step);
         if plan.skip {
